@@ -307,6 +307,36 @@ def decode(w):
         return None
 
 
+def adus(pdu, uid=1, tid=7):
+    """the same PDU framed for the socket, RTU and ASCII framers (hand-built ADUs)"""
+    import binascii
+    from pymodbus.utilities import computeCRC, computeLRC
+    body = bytes([uid]) + pdu
+    return [("socket", struct.pack(">HHHB", tid, 0, len(pdu) + 1, uid) + pdu),
+            ("rtu", body + struct.pack(">H", computeCRC(body))),
+            ("ascii", b":" + binascii.hexlify(body + bytes([computeLRC(body)])).upper() + b"\r\n")]
+
+
+def decode_via_framer(w, which):
+    """the request object a server-side framer delivers for this PDU, or None if that framer delivers
+    nothing for it (e.g. RTU frame-size oracle vs an inconsistent byte count): the caller then falls back
+    to the bare ServerDecoder"""
+    from pymodbus.factory import ServerDecoder
+    from pymodbus.framer.socket_framer import ModbusSocketFramer
+    from pymodbus.framer.rtu_framer import ModbusRtuFramer
+    from pymodbus.framer.ascii_framer import ModbusAsciiFramer
+    name, adu = adus(pdu_of(w))[which % 3]
+    cls = {"socket": ModbusSocketFramer, "rtu": ModbusRtuFramer, "ascii": ModbusAsciiFramer}[name]
+    got = []
+    try:
+        cls(ServerDecoder()).processIncomingPacket(adu, got.append, unit=[1], single=True)
+    except Exception:  # noqa: BLE001 — framing robustness is C06/C07/C12, not this property
+        return None, name
+    if len(got) != 1:
+        return None, name
+    return got[0], name
+
+
 def digest(vals):
     acc = 0
     for i, v in enumerate(vals):
@@ -355,8 +385,9 @@ def touched(w, o):
 class History(object):
     """runs a history of wire requests on one real context, recording the case items"""
 
-    def __init__(self, L, fe_index=0):
+    def __init__(self, L, fe_index=0, framers=False):
         self.L = L
+        self.framers = framers
         self.fctx, self.blocks = build(L)
         self.h = make_handler(self.fctx)
         self.fes = front_ends()
@@ -371,6 +402,12 @@ class History(object):
         req = decode(w)
         if req is None:
             return False
+        via = "ServerDecoder"
+        if self.framers:
+            # same PDU through a real framer; the object it delivers is the one that gets executed
+            r2, fname = decode_via_framer(w, self.fe)
+            if r2 is not None:
+                req, via = r2, fname
         a = attrs_of(req)
         name, fn = self.fes[self.fe % len(self.fes)]
         self.fe += 1
@@ -382,7 +419,7 @@ class History(object):
         o = observe(self.h.sent[-1])
         self.last_obs = o
         self.items.append("HReq (%s) %s (%s) %s" % (wire_term(w), attrs_term(a), obs_term(o), boolean(self.fctx.raised)))
-        self.desc.append({"wire": list(w), "front_end": name, "attrs": a, "response": list(o),
+        self.desc.append({"wire": list(w), "front_end": name, "decoded_by": via, "attrs": a, "response": list(o),
                           "faulted": self.fctx.raised, "set_done_before_fault": self.fctx.raised and self.fctx.set_done})
         self.near += touched(w, off(self.L))
         if o[0] == "E":
